@@ -154,7 +154,19 @@ def _exec_eval(req, blob):
         env = dict(os.environ)
         env["PYTHONHASHSEED"] = "0"
         code = _EXEC_LOADER % {"verif": os.path.dirname(os.path.dirname(os.path.abspath(__file__))), "repo": os.environ.get("VERIF_REPO", "")}
-        p = subprocess.run([sys.executable, "-c", code, json.dumps(r2)], capture_output=True, text=True, env=env, timeout=120)
+        # the real child process lives in real time: the virtual clock (and virtual sleep) must not
+        # drive subprocess's own waiting loop
+        sim = seams.SIM
+        was_active = sim.active if sim is not None else False
+        if sim is not None:
+            sim.active = False
+        try:
+            p = subprocess.run([sys.executable, "-c", code, json.dumps(r2)], capture_output=True, text=True, env=env, timeout=600)
+        except subprocess.TimeoutExpired:
+            raise seams.HarnessError("exec loader timed out")
+        finally:
+            if sim is not None:
+                sim.active = was_active
         if "@@RESULT@@" not in p.stdout:
             raise seams.HarnessError("exec loader failed: %s" % (p.stderr[-500:],))
         return json.loads(p.stdout.split("@@RESULT@@", 1)[1])
